@@ -3,18 +3,20 @@ import Ecal.Model.Conc
 import Ecal.Model.SinkSpec
 import Ecal.Model.SinkClosure
 import Ecal.Model.Scope
+import Ecal.Gen.C11
 /-!
 Driver of C11. Payload (space separated `key=value`):
   `w=<workers> h=<submitters> ev=<events> sinks=<n> ff=<0|1> body=<light|heavy> glob=<0|1> burst=<n>
    shadow=<0|1> nap=<0|1> feat=<letters|-> seed=<n>`
-The model side computes, from the payload alone, every invocation each event must cause and the
+The model side is an ORACLE (`Ecal.SinkSpec`, plain definitions without theorems): it computes, from the payload alone, every invocation each event must cause and the
 outcome of each (`Ecal.SinkSpec`: a function of (sink, event)), and prints the digest of the
 records this implies — errors recorded per (event, sink) with shape, id and sink named inside the
 error; echo records with the accumulator and `m.k`; the lock-protected global counter; the
 declaring scope intact. By `errors_attributed` / `event_is_local` the interleaved model returns
 exactly these outcomes for every schedule, so the digest does not depend on w, h, burst, nap or
 the sink-body features; as a self-check the first invocations are also run through the
-interleaving models (`Ecal.Closure.closureSys []`, `Ecal.Scope.setupSys` with the real set-up order) under a
+interleaving models (`Ecal.Closure.closureSys Gen.capturedWrites`, `Ecal.Scope.setupSys` with the extracted set-up
+order: with a captured `err` / a parent-first order this self-check fails → ` MODEL-INCONSISTENT`) under a
 schedule derived from the seed.
 Result: `E<n>:<digest> R<n>:<digest> T<counter|-> S<1|-> D0` (D = duplicate root monitor ids: every event
 has its own root monitor, the engine's ids are distinct).
@@ -53,11 +55,14 @@ def modelConsistent (c : Cfg) (w : Nat) : Bool :=
     | 0 => (none, none)
     | m => (some (m + 10 * s + 100 * ev), some ev)
   let sched := schedOf (n * 6) c.seed w n ++ (List.range (n * 5)).map (· % n)
-  let fin := run (Ecal.Closure.closureSys [] outcome)
+  -- the closure model with the captured-write list EXTRACTED from the source under test
+  let fin := run (Ecal.Closure.closureSys Ecal.Gen.C11.capturedWrites outcome)
     ⟨fun _ => none, fun t => Ecal.Closure.fresh (inv t).sink (inv t).event⟩ sched
   let g0 : Unit → Ecal.Scope.Chain := fun _ =>
     [fun x => if c.shadow ∧ x = "event" then some 4242 else none]
-  let setup := [("NewScope", ""), ("SetValue", "event"), ("SetParentOfScope", ""), ("Eval", "")]
+  -- the scope model with the set-up order extracted from the source under test (a literal when not established)
+  let setup := if Ecal.Gen.C11.sinkSetupKnown then Ecal.Gen.C11.sinkScopeSetup
+               else [("NewScope", ""), ("SetValue", "event"), ("SetParentOfScope", ""), ("Eval", "")]
   let sfin := run Ecal.Scope.setupSys
     ⟨g0, fun t => { rest := setup, val := fun _ => (inv t).event, probe := "event" }⟩ sched
   (List.range n).all fun t =>
@@ -69,9 +74,11 @@ def runCase (payload : String) : String :=
   let w := field fs "w"
   let c : Cfg := { seed := field fs "seed", sinks := field fs "sinks", ev := field fs "ev",
                    ff := field fs "ff" = 1, glob := field fs "glob" = 1, heavy := fieldStr fs "body" = "heavy",
-                   shadow := field fs "shadow" = 1, featC := (fieldStr fs "feat").contains 'c' }
+                   shadow := field fs "shadow" = 1 || (fieldStr fs "feat").contains 'l', featC := (fieldStr fs "feat").contains 'c',
+                   featG := (fieldStr fs "feat").contains 'g' && (fieldStr fs "feat").contains 'c' }
   if w = 0 ∨ c.ev = 0 ∨ c.sinks = 0 then "bad-payload" else
   line c ++ (if modelConsistent c w then "" else " MODEL-INCONSISTENT")
+    ++ (if c.featG && line c true != line c then "\tkf=error-lost-under-nested-instance-state\tspec=" ++ line c true else "")
     ++ (if w ≥ 2 ∧ field fs "h" * (max 1 (field fs "burst")) ≥ 2 ∧ c.ev ≥ 100 then "\tnt=1" else "")
 
 def run (_args : List String) : IO Unit := lineLoop runCase
